@@ -64,6 +64,12 @@ def main(argv):
     model = Model()
     rng = ck.rng
     mismatches, semfails, stats, outcomes = [], [], {}, {}
+    # the AVM model itself is validated against data recorded from a real node (a disagreement is a MODEL defect: exit 2)
+    try:
+        import avm_validate
+        ck.coverage["avm_validation"] = avm_validate.validate(ck, model, thorough=thorough)
+    except ImportError:
+        ck.notes.append("harness/avm_validate.py not present: AVM model validation skipped")
 
     def consider(c, nctx):
         if c.real[0] == "build-exc":
@@ -79,6 +85,20 @@ def main(argv):
             mismatches.append(c)
         if c.real[0] == "ok":
             semfails.extend(sem_check(ck, model, rng, c, nctx if so else max(nctx, 12), stats))
+            if c.version >= 3 and rng.random() < 0.35:
+                # the same program with assembleConstants=True must behave identically (constant blocks)
+                r2 = call_real(lambda: pt.compileTeal(c.expr, mode_of(pt, c.app), version=c.version, optimize=optimize_of(pt, c.ss, c.fp), assembleConstants=True))
+                outcomes["assembleConstants:" + (r2[0] if r2[0] != "exc" else r2[1])] = outcomes.get("assembleConstants:" + (r2[0] if r2[0] != "exc" else r2[1]), 0) + 1
+                if r2[0] == "ok":
+                    saved = c.real
+                    c.real = r2
+                    f2 = sem_check(ck, model, rng, c, nctx, stats)
+                    for f in f2:
+                        f["assembleConstants"] = True
+                    semfails.extend(f2)
+                    c.real = saved
+                elif r2[1] not in PYTEAL_ERRORS:
+                    semfails.append({"kind": "crash", "case": c.describe(), "assembleConstants": True, "avm": r2[1], "denote": "TEAL expected"})
             ck.sample({"recipe": repr(c.recipe)[:400], "version": c.version, "mode": "app" if c.app else "sig", "teal_lines": len(c.real[1].split("\n"))}, limit=5)
 
     # 1. exhaustive small shapes x versions x modes
